@@ -166,14 +166,12 @@ def _compare_buildable(x: Buildable, y: Buildable, check_dag: bool = False):
             registry=_defaults_aware_traverser_registry,
         )
     )
-    x_paths = sorted([elt[1] for elt in x_elements])
-    y_paths = sorted([elt[1] for elt in y_elements])
-
-    if len(x_paths) != len(y_paths):
+    # Compare the paths as multisets: sorting them would require path elements
+    # (e.g. dict keys of different types) to be mutually orderable.
+    x_paths = collections.Counter(elt[1] for elt in x_elements)
+    y_paths = collections.Counter(elt[1] for elt in y_elements)
+    if x_paths != y_paths:
       return False
-    for x_path, y_path in zip(x_paths, y_paths):
-      if x_path != y_path:
-        return False
 
   return True
 
